@@ -1,3 +1,49 @@
 package props
 
-func helperActivation() int { return 4 } // replaced when C20 is built
+import (
+	"context"
+	"fmt"
+	"io"
+	"os"
+	"time"
+
+	"github.com/varlink/go/varlink"
+)
+
+// helperActivation is the socket-activation child: it sets LISTEN_PID as instructed, calls
+// Service.Listen with the fallback address, and shuts down when its stdin is closed.
+func helperActivation() int {
+	switch os.Getenv("VERIF_PID_MODE") {
+	case "own":
+		os.Setenv("LISTEN_PID", fmt.Sprint(os.Getpid()))
+	case "other":
+		os.Setenv("LISTEN_PID", fmt.Sprint(os.Getppid()))
+	case "unset":
+		os.Unsetenv("LISTEN_PID")
+	default:
+		os.Setenv("LISTEN_PID", os.Getenv("VERIF_PID_MODE")) // literal (garbage) value
+	}
+	svc, err := varlink.NewService(os.Getenv("VERIF_TOKEN"), "p", "1", "u")
+	if err != nil {
+		return 5
+	}
+	ctx, cancel := context.WithCancel(context.Background())
+	defer cancel()
+	done := make(chan error, 1)
+	go func() { done <- svc.Listen(ctx, os.Getenv("VERIF_FALLBACK"), 0) }()
+	stop := make(chan struct{})
+	go func() { io.Copy(io.Discard, os.Stdin); close(stop) }()
+	select {
+	case err := <-done:
+		fmt.Fprintf(os.Stderr, "LISTEN-RETURNED %v\n", err)
+		return 6
+	case <-stop:
+	}
+	svc.Shutdown()
+	select {
+	case <-done:
+	case <-time.After(5 * time.Second):
+		return 7
+	}
+	return 0
+}
